@@ -3,6 +3,7 @@ delegation and n-gram windows (C12)."""
 from __future__ import annotations
 
 import ast
+import copy
 
 from .facts import (COUNTMIN, SKETCH_CLASSES, array_alloc, const_int, facts_of, init_attr_defs, param_rebinds, scalar_ctor)
 from .flow import NP_DTYPES, Arr, Bytes, Num, Opaque, Tup, c_not, conjuncts, show_cond
@@ -1335,8 +1336,19 @@ def rule_layout(ctx, classes=SKETCH_CLASSES):
         cons = "%s.__init__ vs %s" % (cls.name, att.qualname)
         # same attributes in the same order
         ca, aa = [s["attr"] for s in csegs], [s["attr"] for s in asegs]
+        okl = ca == aa and bool(ca)
+        whyl = "" if ca == aa else "attacher maps %s" % aa
+        if not okl:
+            # attributes stored under a computed name (`setattr(self, name, view)` in a loop the analysis could not unroll) are not
+            # among the segments read: the comparison is not decided, it is not a mismatch
+            for fn_ in (ctor, att):
+                if any(isinstance(c, ast.Call) and dotted(c.func) == "setattr" and len(c.args) == 3 and not isinstance(c.args[1], ast.Constant)
+                       for c in walk_no_nested(fn_.node)):
+                    okl, whyl = None, "%s stores attributes under computed names (setattr in a loop): segments not read" % fn_.qualname
         ctx.ob("layout", att, att.node, "%s: segments %s" % (cons, ca), "creator and attacher map the same attributes in the same order",
-               ca == aa and bool(ca), "" if ca == aa else "attacher maps %s" % aa)
+               okl, whyl)
+        if okl is None:
+            continue
         if ca != aa:
             continue
         prev_end = Poly.const(0)
@@ -1505,24 +1517,87 @@ def rule_owner(ctx, classes=SKETCH_CLASSES):
             continue
         seen.add(d.key)
         shm_attrs = _shm_backed(F, d.cls)
+        # locals that merely hold self.shm / self.existing_shm (`owned = self.shm`, possibly `= None` in an except arm)
+        alias = {}
+        for n in walk_no_nested(d.node):
+            if isinstance(n, ast.Assign) and len(n.targets) == 1 and isinstance(n.targets[0], ast.Name):
+                nm, a_ = n.targets[0].id, self_attr(n.value)
+                if a_ in ("shm", "existing_shm"):
+                    alias[nm] = None if alias.get(nm, a_) != a_ else a_
+                elif not (isinstance(n.value, ast.Constant) and n.value.value is None) and nm in alias:
+                    alias[nm] = None
+
+        def attr_of(e):
+            a_ = self_attr(e)
+            if a_ is None and isinstance(e, ast.Name):
+                a_ = alias.get(e.id)
+            return a_
+
+        def dotted_attr(e):
+            """'self.shm' for self.shm or a local holding it"""
+            a_ = attr_of(e)
+            return "self." + a_ if a_ in ("shm", "existing_shm") else dotted(e)
+        held_release = set()          # statements of a private release helper called from the arms count as the arm's own
         for n in walk_no_nested(d.node):
             if isinstance(n, ast.Call) and isinstance(n.func, ast.Attribute) and n.func.attr == "unlink":
-                tgt = dotted(n.func.value)
+                tgt = dotted_attr(n.func.value)
                 okk = tgt == "self.shm"
-                ctx.ob("owner", d, n, "%s.unlink()" % tgt, "only the owner's block is unlinked", okk,
-                       "" if okk else "an attached view removes the owner's segment from the system")
-        # per arm: `if self.shm:` / `if self.existing_shm:` bodies
+                unknown = isinstance(n.func.value, ast.Name) and alias.get(n.func.value.id, 0) in (0, None)
+                ctx.ob("owner", d, n, "%s.unlink()" % tgt, "only the owner's block is unlinked", None if (not okk and unknown) else okk,
+                       "" if okk else ("`%s` is a local the analysis cannot tie to self.shm" % tgt if unknown else
+                                       "an attached view removes the owner's segment from the system"))
+        # per arm: `if self.shm:` / `if self.existing_shm:` bodies -- or the guard-clause spelling `if not self.X: return` + the rest
         arms = {}
-        for n in walk_no_nested(d.node):
-            if isinstance(n, ast.If) and self_attr(n.test) in ("shm", "existing_shm"):
-                arms[self_attr(n.test)] = n
+
+        def find_arms(stmts):
+            for i_, n in enumerate(stmts):
+                if isinstance(n, ast.If):
+                    t = n.test
+                    if attr_of(t) in ("shm", "existing_shm"):
+                        arms[attr_of(t)] = n
+                    elif isinstance(t, ast.UnaryOp) and isinstance(t.op, ast.Not) and attr_of(t.operand) in ("shm", "existing_shm") \
+                            and len(n.body) == 1 and isinstance(n.body[0], ast.Return) and not n.orelse and stmts[i_ + 1:]:
+                        arms[attr_of(t.operand)] = ast.copy_location(ast.If(test=t.operand, body=stmts[i_ + 1:], orelse=[]), n)
+                    elif isinstance(t, ast.UnaryOp) and isinstance(t.op, ast.Not) and attr_of(t.operand) in ("shm", "existing_shm") and n.orelse \
+                            and all(isinstance(x, (ast.Pass, ast.Return)) for x in n.body):
+                        arms[attr_of(t.operand)] = ast.copy_location(ast.If(test=t.operand, body=n.orelse, orelse=[]), n)
+                for fld in ("body", "orelse", "finalbody"):
+                    blk = getattr(n, fld, None)
+                    if isinstance(blk, list) and not isinstance(n, (ast.FunctionDef, ast.ClassDef)):
+                        find_arms(blk)
+                for h in getattr(n, "handlers", []) or []:
+                    find_arms(h.body)
+        find_arms(d.node.body)
         for which in ("shm", "existing_shm"):
             arm = arms.get(which)
             if arm is None:
-                ctx.ob("owner", d, d.node, "if self.%s:" % which, "__del__ handles the %s case" % which, False, "no such arm")
+                mentions = any(self_attr(x) == which for x in walk_no_nested(d.node))
+                ctx.ob("owner", d, d.node, "if self.%s:" % which, "__del__ handles the %s case" % which, None if mentions else False,
+                       "self.%s is handled in a shape the analysis does not read" % which if mentions else "no such arm")
                 continue
+            # a private helper of the class called from the arm with no arguments (`self._release_views()`) is read as part of the arm
+            extra = []
+            for c_ in [n for n in walk_no_nested(arm) if isinstance(n, ast.Call) and isinstance(n.func, ast.Attribute) and dotted(n.func.value) == "self"
+                       and not n.args and not n.keywords and n.func.attr.startswith("_")]:
+                hm = cls.resolve(c_.func.attr)
+                if hm is not None and not any(isinstance(x, (ast.Return,)) and x.value is not None for x in walk_no_nested(hm.node)):
+                    extra.append((c_, hm))
+            if extra:
+                arm = copy.deepcopy(arm)
+                names = {hm.name: hm for _, hm in extra}
+
+                class _Splice(ast.NodeTransformer):
+                    def visit_Expr(self, e):
+                        v = e.value
+                        if isinstance(v, ast.Call) and isinstance(v.func, ast.Attribute) and dotted(v.func.value) == "self" and v.func.attr in names \
+                                and not v.args and not v.keywords:
+                            return [copy.deepcopy(x) for x in names[v.func.attr].node.body
+                                    if not (isinstance(x, ast.Expr) and isinstance(x.value, ast.Constant))]
+                        return e
+                arm = _Splice().visit(arm)
+                ast.fix_missing_locations(arm)
             closes = [n for n in walk_no_nested(arm) if isinstance(n, ast.Call) and isinstance(n.func, ast.Attribute) and n.func.attr == "close"
-                      and dotted(n.func.value) == "self." + which]
+                      and dotted_attr(n.func.value) == "self." + which]
             dels = [self_attr(t) for n in walk_no_nested(arm) if isinstance(n, ast.Delete) for t in n.targets]
             del_lines = [n for n in walk_no_nested(arm) if isinstance(n, ast.Delete)]
             # `for name in ("a", "b"): delattr(self, name)`  and  `delattr(self, "a")`
@@ -1780,6 +1855,8 @@ def rule_attach_table(ctx):
             okk = None          # no decision on the tag is readable at all (e.g. a lookup helper over a table): not decided
         ctx.ob("attach-table", asm, asm.node, "%r -> %s" % (tag, t2f.get(tag)), "attach_shared_memory builds tag %r with %s(**args)" % (tag, fac), okk)
         okk = c2t.get(cname) == tag
+        if not c2t:
+            okk = None          # no class -> tag decision of parallel_merging is readable at all: not decided
         ctx.ob("attach-table", pm, pm.node, "%s -> %r" % (cname, c2t.get(cname)), "parallel_merging tags %s instances %r (inverse of the factory table)" % (cname, tag), okk)
     # attach after construction
     calls = [n for n in walk_no_nested(asm.node) if isinstance(n, ast.Call) and isinstance(n.func, ast.Attribute) and n.func.attr == "attach_existing_shm"]
@@ -1833,7 +1910,10 @@ def rule_attach_table(ctx):
                                 okk = (last or byvar) and appended_before
                 else:
                     okk = isinstance(tagn, ast.Name) and tagn.id == tagvar and isinstance(argn, ast.Name) and argn.id == argvar
-                ctx.ob("attach-table", fn, n, unparse(n, 80), "descriptor triple is (tag, args of that sketch, name of that sketch's block)", bool(okk))
+                    if not okk and fn is pa and isinstance(tagn, ast.Name):
+                        okk = None      # the tag is a variable (table-driven construction the analysis could not unroll): not decided
+                ctx.ob("attach-table", fn, n, unparse(n, 80), "descriptor triple is (tag, args of that sketch, name of that sketch's block)",
+                       None if okk is None else bool(okk))
 
 
 # ---------------------------------------------------------------------------
